@@ -424,7 +424,20 @@ def run(prop, tier, seed, replay=None):
                 break
     run_list = [{k: v for k, v in c.items() if not k.startswith("pred_") and k != "replay_cfg"} for c in cases]
     samples = [run_list[i] for i in range(0, len(run_list), max(1, len(run_list) // 3))][:3]
+    ev_hist = {}
+    for ln in lines:
+        i = ln.find('"e":"')
+        if i >= 0:
+            k = ln[i + 5:ln.find('"', i + 5)]
+            ev_hist[k] = ev_hist.get(k, 0) + 1
+    lo_hist = {}
+    for ln in lines:
+        i = ln.find('"k":"')
+        if i >= 0:
+            k = ln[i + 5:ln.find('"', i + 5)]
+            lo_hist[k] = lo_hist.get(k, 0) + 1
     coverage = {
+        "event_histogram": dict(sorted(ev_hist.items())), "lowlevel_record_histogram": dict(sorted(lo_hist.items())),
         "states": states, "transitions": trans,
         "traces_validated_against_impl": len(cases),
         "samples": samples,
